@@ -16,8 +16,17 @@ pub struct V5Parser;
 
 impl V5Parser {
     pub fn parse(packet: &[u8]) -> Result<ParsedNetflow, NetflowParseError> {
+        Self::parse_slice(packet)
+            .map(|(remaining, result)| ParsedNetflow::new(remaining, result))
+    }
+
+    /// Same as `parse`, but hands back the unparsed tail as a slice of the input instead of
+    /// copying it (the chained-packet loop of `parse_bytes` only needs to know where it starts).
+    pub(crate) fn parse_slice(
+        packet: &[u8],
+    ) -> Result<(&[u8], NetflowPacket), NetflowParseError> {
         V5::parse(packet)
-            .map(|(remaining, v5)| ParsedNetflow::new(remaining, NetflowPacket::V5(v5)))
+            .map(|(remaining, v)| (remaining, NetflowPacket::V5(v)))
             .map_err(|e| {
                 NetflowParseError::Partial(PartialParse {
                     version: 5,
